@@ -315,6 +315,10 @@ func (v *v0ProtocolMarshaler) unmarshalHeaders(reader io.Reader) (map[string]str
 			fmt.Sprintf("frugal: error reading protocol headers in unmarshalHeaders reading header size: %s", err))
 	}
 	size := int32(binary.BigEndian.Uint32(buff))
+	if size < 0 {
+		return nil, thrift.NewTProtocolExceptionWithType(thrift.INVALID_DATA,
+			fmt.Errorf("frugal: invalid v0 protocol headers size %d", size))
+	}
 	buff = make([]byte, size)
 	if _, err := io.ReadFull(reader, buff); err != nil {
 		if e, ok := err.(thrift.TTransportException); ok && e.TypeId() == TRANSPORT_EXCEPTION_END_OF_FILE {
@@ -336,7 +340,7 @@ func (v *v0ProtocolMarshaler) unmarshalHeadersFromFrame(frame []byte) (map[strin
 			fmt.Errorf("frugal: invalid v0 frame size %d", len(frame)))
 	}
 	size := int32(binary.BigEndian.Uint32(frame))
-	if size > int32(len(frame[4:])) {
+	if size < 0 || size > int32(len(frame[4:])) {
 		return nil, thrift.NewTProtocolExceptionWithType(thrift.INVALID_DATA,
 			fmt.Errorf("frugal: v0 frame size %d does not match actual size %d", size, len(frame[4:])))
 	}
@@ -390,9 +394,13 @@ func (v *v0ProtocolMarshaler) readPairs(buff []byte, start, end int32) (map[stri
 	i := start
 	for i < end {
 		// Read header name.
+		if end-i < 4 {
+			return nil, thrift.NewTProtocolExceptionWithType(thrift.INVALID_DATA,
+				errors.New("frugal: invalid v0 protocol header name size"))
+		}
 		nameSize := int32(binary.BigEndian.Uint32(buff[i : i+4]))
 		i += 4
-		if i > end || i+nameSize > end {
+		if nameSize < 0 || nameSize > end-i {
 			return nil, thrift.NewTProtocolExceptionWithType(thrift.INVALID_DATA,
 				errors.New("frugal: invalid v0 protocol header name"))
 		}
@@ -400,9 +408,13 @@ func (v *v0ProtocolMarshaler) readPairs(buff []byte, start, end int32) (map[stri
 		i += nameSize
 
 		// Read header value.
+		if end-i < 4 {
+			return nil, thrift.NewTProtocolExceptionWithType(thrift.INVALID_DATA,
+				errors.New("frugal: invalid v0 protocol header value size"))
+		}
 		valueSize := int32(binary.BigEndian.Uint32(buff[i : i+4]))
 		i += 4
-		if i > end || i+valueSize > end {
+		if valueSize < 0 || valueSize > end-i {
 			return nil, thrift.NewTProtocolExceptionWithType(thrift.INVALID_DATA,
 				errors.New("frugal: invalid v0 protocol header value"))
 		}
